@@ -42,6 +42,21 @@ pub enum AlgMode {
     /// Re-signed by a roster key whose public JWK is embedded in the protected header (`jwk`),
     /// optionally with a `kid` / `x5c`-style hint: the token vouches for its own key.
     ResignEmbedJwk(String),
+    /// Re-signed by a roster key with a protected header made large by ordinary parameters
+    /// (`kid`, `x5c`, `jku`): sizes beyond any fixed buffer an implementation might use.
+    ResignBigHeader { kid: String, bytes: usize, param: u8 },
+}
+
+#[derive(Clone, Copy, Debug, Serialize, Deserialize, PartialEq)]
+pub enum SigEnc {
+    /// ASN.1 DER SEQUENCE { INTEGER r, INTEGER s } (what OpenSSL emits; not what JWS allows)
+    Der,
+    /// DER with a redundant leading zero byte in both integers
+    DerPadded,
+    /// R||S with each half left-padded by one zero byte
+    ZeroPadded,
+    /// standard base64 alphabet / padding of the same bytes
+    StdBase64,
 }
 
 #[derive(Clone, Copy, Debug, Serialize, Deserialize, PartialEq)]
@@ -73,6 +88,9 @@ pub enum Reser {
     ChangeSalt,
     ChangeName,
     ChangeValue,
+    /// the same JSON text followed by more bytes (a second document, a stray bracket, NUL):
+    /// not a JSON array any more, although a parser that stops after the first value reads one
+    TrailingData(u8),
 }
 
 #[derive(Clone, Debug, Serialize, Deserialize, PartialEq)]
@@ -106,6 +124,16 @@ pub enum Fault {
     Reserialize { i: usize, mode: Reser },
     ForeignDisclosure { from: usize, j: usize, at: usize },
     GarbageDisclosure { text: String, at: usize },
+    /// `n` well-formed but unreferenced disclosures inserted at `at` (long lists: position
+    /// limits, quadratic scans, fixed-size tables)
+    FloodDisclosures { n: usize, at: usize },
+    /// disclosures i and i+1 travel as ONE string "Di~Dj" (expressible in the JSON form only):
+    /// the separator of the other serialization inside a member
+    MergeDisclosures { i: usize },
+    /// the KB slot carries "Di~Dj~" (JSON form only), the disclosures are taken out of the list
+    DisclosuresIntoKbSlot { n: usize },
+    /// the signature of the issuer-signed JWT in another encoding of the same (r, s) pair
+    SigReencode(SigEnc),
     StripKb,
     EmptyKb,
     /// the KB slot holds arbitrary text (near-valid JWTs, wrong part counts, non-base64 …)
@@ -124,7 +152,17 @@ pub enum Fault {
     /// structurally malformed tokens).
     ByzPayload { edit: PayloadEdit, key: String, alg: String },
     /// Genuine holder key, one field absent (`None`) or different.
-    KbFieldEdit { key: String, alg: String, aud: String, nonce: String, field: KbField, value: Option<Value> },
+    KbFieldEdit {
+        key: String,
+        alg: String,
+        aud: String,
+        nonce: String,
+        field: KbField,
+        value: Option<Value>,
+        /// further fields edited in the same KB-JWT (two or three deviations at once)
+        #[serde(default)]
+        also: Vec<(KbField, Option<Value>)>,
+    },
 }
 
 impl Fault {
@@ -144,6 +182,10 @@ impl Fault {
             Fault::Reserialize { .. } => "reserialize_disclosure",
             Fault::ForeignDisclosure { .. } => "foreign_disclosure",
             Fault::GarbageDisclosure { .. } => "garbage_disclosure",
+            Fault::FloodDisclosures { .. } => "flood_of_unreferenced_disclosures",
+            Fault::MergeDisclosures { .. } => "two_disclosures_in_one_member",
+            Fault::DisclosuresIntoKbSlot { .. } => "disclosures_in_kb_slot",
+            Fault::SigReencode(_) => "signature_reencoded",
             Fault::StripKb => "strip_kb",
             Fault::GarbageKb(_) => "garbage_kb",
             Fault::LastDisclosureIntoKbSlot => "lost_trailing_separator",
@@ -163,7 +205,7 @@ impl Fault {
                 p => format!("{:?}", p),
             },
             Fault::AlgRewrite(m) => format!("{:?}", std::mem::discriminant(m)),
-            Fault::KbFieldEdit { field, value, .. } => format!("{:?}{}", field, if value.is_none() { "-absent" } else { "-other" }),
+            Fault::KbFieldEdit { field, value, also, .. } => format!("{:?}{}{}", field, if value.is_none() { "-absent" } else { "-other" }, also.iter().map(|(f, v)| format!("+{:?}{}", f, if v.is_none() { "-absent" } else { "-other" })).collect::<String>()),
             Fault::Reserialize { mode, .. } => format!("{:?}", mode),
             Fault::ForgeDisclosure { arity, .. } => format!("{}", arity),
             _ => String::new(),
@@ -357,6 +399,12 @@ fn reserialize(d: &str, mode: &Reser) -> Option<String> {
             let n = (idx & !mask) | ((idx & mask) ^ 1);
             *cs.last_mut()? = AL[n];
             String::from_utf8(cs).ok()?
+        }
+        Reser::TrailingData(k) => {
+            let mut raw = model::b64d(d)?;
+            let tails: [&[u8]; 8] = [b"x", b" []", b"]", b"\0", b",1", b"\n{}", b" \"a\"", b"[\"c2FsdA\",\"admin\",true]"];
+            raw.extend_from_slice(tails[*k as usize % tails.len()]);
+            model::b64e(&raw)
         }
         _ => {
             let v = model::decode_disclosure(d)?;
@@ -569,6 +617,28 @@ pub fn apply(f: &Fault, m: &mut Message, tokens: &[Message], w: &mut World, now:
                         m.s = v[2].into();
                     }
                 }
+                AlgMode::ResignBigHeader { kid, bytes, param } => {
+                    let Some(claims) = model::decode_jwt_part(&m.p) else { return false };
+                    if kid.starts_with("hs") {
+                        return false;
+                    }
+                    let Ok(alg) = keys::alg_of(kid).parse::<jsonwebtoken::Algorithm>() else { return false };
+                    let mut header = jsonwebtoken::Header::new(alg);
+                    header.typ = h.get("typ").and_then(Value::as_str).map(str::to_string);
+                    let filler = "Qk".repeat(*bytes / 2 + 1);
+                    match param % 3 {
+                        0 => header.kid = Some(filler),
+                        1 => header.x5c = Some(vec![filler]),
+                        _ => header.jku = Some(format!("https://issuer.example/{filler}")),
+                    }
+                    if let Ok(t) = jsonwebtoken::encode(&header, &claims, &keys::enc_key(kid)) {
+                        w.signed_by.entry(kid.clone()).or_default().push(t.clone());
+                        let v: Vec<&str> = t.split('.').collect();
+                        m.h = v[0].into();
+                        m.p = v[1].into();
+                        m.s = v[2].into();
+                    }
+                }
                 AlgMode::ResignOtherFamily(kid) => {
                     let Some(claims) = model::decode_jwt_part(&m.p) else { return false };
                     let typ = h.get("typ").and_then(Value::as_str).map(str::to_string);
@@ -604,6 +674,75 @@ pub fn apply(f: &Fault, m: &mut Message, tokens: &[Message], w: &mut World, now:
                     let d = t.disclosures[*j % t.disclosures.len()].clone();
                     let at = *at % (m.disclosures.len() + 1);
                     m.disclosures.insert(at, d);
+                }
+            }
+        }
+        Fault::FloodDisclosures { n, at } => {
+            let at = *at % (m.disclosures.len() + 1);
+            let flood: Vec<String> = (0..*n).map(|i| model::b64e(json!([format!("Zmxvb2Qtc2FsdC0{:06}", i), format!("flood_{}", i), i]).to_string().as_bytes())).collect();
+            let tail = m.disclosures.split_off(at);
+            m.disclosures.extend(flood);
+            m.disclosures.extend(tail);
+        }
+        Fault::MergeDisclosures { i } => {
+            if m.disclosures.len() >= 2 {
+                let i = *i % (m.disclosures.len() - 1);
+                let b = m.disclosures.remove(i + 1);
+                m.disclosures[i] = format!("{}~{}", m.disclosures[i], b);
+            }
+        }
+        Fault::DisclosuresIntoKbSlot { n } => {
+            if !m.disclosures.is_empty() {
+                let k = (1 + *n % 3).min(m.disclosures.len());
+                let at = m.disclosures.len() - k;
+                let moved = m.disclosures.split_off(at);
+                m.kb = Some(format!("{}~", moved.join("~")));
+            }
+        }
+        Fault::SigReencode(enc) => {
+            let Some(raw) = model::b64d(&m.s) else { return false };
+            match enc {
+                SigEnc::StdBase64 => {
+                    use base64::Engine;
+                    m.s = base64::engine::general_purpose::STANDARD.encode(&raw);
+                }
+                _ => {
+                    if raw.len() % 2 != 0 || raw.is_empty() {
+                        return false;
+                    }
+                    let (r, s) = raw.split_at(raw.len() / 2);
+                    let out = match enc {
+                        SigEnc::ZeroPadded => {
+                            let mut o = vec![0u8];
+                            o.extend_from_slice(r);
+                            o.push(0);
+                            o.extend_from_slice(s);
+                            o
+                        }
+                        _ => {
+                            let int = |x: &[u8]| {
+                                let mut v: Vec<u8> = x.iter().copied().skip_while(|b| *b == 0).collect();
+                                if v.is_empty() || v[0] & 0x80 != 0 {
+                                    v.insert(0, 0);
+                                }
+                                if *enc == SigEnc::DerPadded {
+                                    v.insert(0, 0);
+                                }
+                                let mut o = vec![0x02, v.len() as u8];
+                                o.extend(v);
+                                o
+                            };
+                            let body: Vec<u8> = int(r).into_iter().chain(int(s)).collect();
+                            let mut o = vec![0x30];
+                            if body.len() >= 128 {
+                                o.push(0x81);
+                            }
+                            o.push(body.len() as u8);
+                            o.extend(body);
+                            o
+                        }
+                    };
+                    m.s = model::b64e(&out);
                 }
             }
         }
@@ -671,25 +810,27 @@ pub fn apply(f: &Fault, m: &mut Message, tokens: &[Message], w: &mut World, now:
                 }
             }
         }
-        Fault::KbFieldEdit { key, alg, aud, nonce, field, value } => {
+        Fault::KbFieldEdit { key, alg, aud, nonce, field, value, also } => {
             let mut claims = kb_claims(aud, nonce, now, &sd_hash_of(m));
             let mut typ: Option<String> = Some("kb+jwt".into());
             let o = claims.as_object_mut().unwrap();
-            match field {
-                KbField::Typ => typ = value.as_ref().and_then(Value::as_str).map(str::to_string),
-                KbField::Nonce | KbField::Aud | KbField::SdHash | KbField::Iat => {
-                    let k = match field {
-                        KbField::Nonce => "nonce",
-                        KbField::Aud => "aud",
-                        KbField::SdHash => "sd_hash",
-                        _ => "iat",
-                    };
-                    match value {
-                        Some(v) => {
-                            o.insert(k.into(), v.clone());
-                        }
-                        None => {
-                            o.shift_remove(k);
+            for (field, value) in std::iter::once((field, value)).chain(also.iter().map(|(f, v)| (f, v))) {
+                match field {
+                    KbField::Typ => typ = value.as_ref().and_then(Value::as_str).map(str::to_string),
+                    KbField::Nonce | KbField::Aud | KbField::SdHash | KbField::Iat => {
+                        let k = match field {
+                            KbField::Nonce => "nonce",
+                            KbField::Aud => "aud",
+                            KbField::SdHash => "sd_hash",
+                            _ => "iat",
+                        };
+                        match value {
+                            Some(v) => {
+                                o.insert(k.into(), v.clone());
+                            }
+                            None => {
+                                o.shift_remove(k);
+                            }
                         }
                     }
                 }
